@@ -726,25 +726,44 @@ class Z3Real:
 
 
 class FPReal(Z3Real):
-    """Standard model of IEEE-754 binary64 arithmetic over the reals (an OVER-approximation of what the hardware does):
-    every float operation returns exact*(1+e)+d with fresh |e| <= 2^-53, |d| <= 2^-1075 (no overflow assumed; the callers'
-    ranges are far below 2^1024). `unsat` in this model is a proof for all binary64 inputs in the real interval; `sat` means
-    nothing by itself (the obligation then falls back to the exact QF_BVFP encoding). ints are z3 Ints, floats z3 Reals."""
-    name = 'z3 Real, standard FP error model (|e|<=2^-53)'
+    """Model of IEEE-754 binary64 round-to-nearest arithmetic over the reals/integers (an OVER-approximation of what the
+    hardware does; linear as long as the kernel multiplies/divides by constants). For every float operation with exact
+    result x the model introduces the result r with
+      * |r - x| <= |x| * 2^-53 + 2^-1075                                   (standard model; no overflow assumed), and
+      * for every exponent e of a window given at query time:  2^e <= |x| < 2^(e+1)  =>  r = j * 2^(e-52) for an integer j
+        and |r - x| <= 2^(e-53)                                             (r is the nearest point of the binade's grid;
+                                                                            which neighbour wins a tie is left open).
+    `unsat` in this model is a proof for all binary64 inputs in the real interval; `sat` means nothing by itself (the
+    obligation then falls back to the exact QF_BVFP encoding). python ints are z3 Ints, floats z3 Reals."""
+    name = 'z3 Int/Real, binary64 rounding model (nearest grid point per binade; |err| <= 2^-53 |x|)'
     U = Fraction(1, 2 ** 53)
     D = Fraction(1, 2 ** 1075)
 
     def __init__(self):
         super().__init__()
-        self.side = []        # facts about the fresh rounding-error variables + exactness requirements (ints below 2^53)
-        self.requires = []
+        self.roundings = []   # [(exact term, result var, grid integer var)]
+        self.requires = []    # exactness requirements of the encoding (ints converted to float are below 2^53)
         self._n = 0
 
     def _rounded(self, exact):
         self._n += 1
-        e, d = self.z3.Real(f'eps_{self._n}'), self.z3.Real(f'del_{self._n}')
-        self.side += [e >= self.val(-self.U), e <= self.val(self.U), d >= self.val(-self.D), d <= self.val(self.D)]
-        return exact * (1 + e) + d
+        r, j = self.z3.Real(f'fl_{self._n}'), self.z3.Int(f'grid_{self._n}')
+        self.roundings.append((exact, r, j))
+        return r
+
+    def rounding_constraints(self, emin=None, emax=None):
+        z3, out = self.z3, []
+        for x, r, j in self.roundings:
+            ax = z3.If(x >= 0, x, -x)
+            err = r - x
+            bound = ax * self.val(self.U) + self.val(self.D)
+            out += [err <= bound, -err <= bound]
+            if emin is not None:
+                for e in range(emin, emax + 1):
+                    g = Fraction(2) ** (e - 52)
+                    out.append(z3.Implies(z3.And(ax >= self.val(Fraction(2) ** e), ax < self.val(Fraction(2) ** (e + 1))),
+                                          z3.And(r == z3.ToReal(j) * self.val(g), 2 * err <= self.val(g), -2 * err <= self.val(g))))
+        return out
 
     def _exact_int(self, v):
         if self.is_term(v):
@@ -808,7 +827,20 @@ class Head:
         return self.n + (1 if self.neg else 0)
 
     def sym_truth(self, sym):
-        return True
+        return self.n > 0 or self.neg
+
+    def sym_format(self, sym, spec, st):
+        if spec == '':
+            return self
+        raise Unsupported('format spec on Head')
+
+    def sym_contains(self, sym, item):
+        if isinstance(item, str) and len(item) == 1 and not item.isdigit() and item not in '-+':
+            return False
+        raise Unsupported(f'{item!r} in Head')
+
+    def to_numstr(self):
+        return NumStr(self.neg, self.n, 0, False, self.ip)
 
     def m_lstrip(self, sym, st, chars=None):
         if chars is None:
@@ -846,6 +878,11 @@ class Tail:
 
     def sym_truth(self, sym):
         return self.n > 0
+
+    def sym_format(self, sym, spec, st):
+        if spec == '':
+            return self
+        raise Unsupported('format spec on Tail')
 
     def sym_getitem(self, sym, idx):
         if isinstance(idx, slice) and idx.start is None and isinstance(idx.stop, int):
@@ -910,9 +947,9 @@ class NumStr:
     def sym_eq(self, sym, other):
         raise Unsupported('NumStr comparison')
 
-    def concrete(self, be, subst):
-        """The actual string for concrete digit values (translator validation)."""
-        sc = be.evaluate(self.scaled, subst)
+    def concrete(self, evaluate):
+        """The actual string for concrete digit values; `evaluate(term)` gives the value of a term (translator validation)."""
+        sc = evaluate(self.scaled) if not isinstance(self.scaled, int) else self.scaled
         if not isinstance(sc, int):
             raise Unsupported('NumStr not determined')
         digits = str(sc).zfill(self.int_len + self.frac_len)
@@ -973,8 +1010,17 @@ class SymDecimal:
         return SciStr(self) if self.is_sci() else self.plain(sym)
 
     def sym_float(self, sym, st):
-        st.notes.append('float(Decimal) taken as exact')
-        return self.value(sym.be)
+        """float(Decimal): the nearest binary64 number - modelled as v + err with |err| <= |v| * 2^-53, and err == 0 when v is
+        an integer below 2^53 (over-approximation: which values are exactly representable is otherwise left open)."""
+        be, z3 = sym.be, sym.be.z3
+        v = self.value(be)
+        err = sym.new('float_err', 'real')
+        av = -v if self.neg else v
+        st.assumes += [err <= av * be.val(Fraction(1, 2 ** 53)), -err <= av * be.val(Fraction(1, 2 ** 53))]
+        if self.e >= 0:
+            st.assumes.append(z3.Implies(av <= 2 ** 53, err == 0))
+        st.notes.append('float(Decimal) modelled as nearest-double over-approximation')
+        return v + err
 
     def sym_format(self, sym, spec, st):
         if spec == 'f':
@@ -984,22 +1030,39 @@ class SymDecimal:
         raise Unsupported(f'format(Decimal, {spec!r})')
 
 
-def real_to_numstr(sym, st, x, k, max_int_digits=24):
-    """f'{x:.kf}' for a real term x: alternatives over sign and number of integer digits (lengths stay concrete)."""
+def real_to_numstr(sym, st, x, k, max_int_digits=40):
+    """f'{x:.kf}' for a real term x: alternatives over sign and number of integer digits (lengths stay concrete).
+    The feasible digit counts are found from a model and extended in both directions until infeasible."""
     be, z3 = sym.be, sym.be.z3
     q = be.round_half_even(sym, st, x, k)
     mag = z3.If(q >= 0, q, -q)
+    base = st.conds + st.assumes
     alts = []
+
+    def cond_for(neg, n):
+        lo = 0 if n == 1 else _pow10(n - 1 + k)
+        return z3.And((q < 0) if neg else (q >= 0), mag >= lo, mag < _pow10(n + k))
+
     for neg in (False, True):
-        sign_c = (q < 0) if neg else (q >= 0)
-        for n in range(1, max_int_digits + 1):
-            lo = 0 if n == 1 else _pow10(n - 1 + k)
-            cond = z3.And(sign_c, mag >= lo, mag < _pow10(n + k))
-            if be.feasible(st.conds + st.assumes + [cond]):
-                alts.append((cond, NumStr(neg, n, k, k > 0, mag)))
+        r, m = be.check(base + [(q < 0) if neg else (q >= 0)])
+        if r == 'unknown':
+            raise Unsupported('solver gave up while enumerating format alternatives')
+        if r == 'unsat':
+            continue
+        n0 = max(1, len(str(abs(be.model_value(m, q)))) - k)
+        if n0 > max_int_digits:
+            raise Unsupported('formatted number longer than the supported bound')
+        alts.append((cond_for(neg, n0), NumStr(neg, n0, k, k > 0, mag)))
+        for step in (1, -1):
+            n = n0 + step
+            while 1 <= n <= max_int_digits and be.feasible(base + [cond_for(neg, n)]):
+                alts.append((cond_for(neg, n), NumStr(neg, n, k, k > 0, mag)))
+                n += step
+            if n > max_int_digits:
+                raise Unsupported('formatted number longer than the supported bound')
     if not alts:
         raise Unsupported('no feasible formatting alternative')
-    st.notes.append("format(float, '.%df'): sign of a negative zero result is not modelled" % k)
+    st.notes.append("format(float, '.%df'): the sign of a negative-zero result is not modelled" % k)
     return Multi(alts)
 
 
